@@ -1,6 +1,6 @@
 #!/bin/sh
 # usage: try_seed.sh <patch.diff> <property> [tier]  - run a check against /repo with a seeded change applied, then undo it
-P=$1; ID=$2; TIER=${3:-quick}
+P=$1; [ -f "$(dirname $1)/patch_current.diff" ] && P=$(dirname $1)/patch_current.diff; ID=$2; TIER=${3:-quick}
 git -C /repo apply "$P" || exit 3
 cd /verif && python3-vt verif.py check $ID --tier $TIER; RC=$?
 git -C /repo checkout -- . ; git -C /repo clean -fdq -e target
